@@ -28,6 +28,8 @@ RULE = ('Hypothesis-generated file trees (<= 25 nodes, depth <= 4; names with bl
         'offending file is removed and the SAME populator is used again on a fresh map (options of the rejected '
         'call must not linger). '
         'In ~17% of the cases the last population call is repeated up to 33-261 times on the same map (odd sizes force nest_on_conflict), bounded by the size of the tree. '
+        ''
+        'Roots may be spelled with a trailing separator (at construction, per call or both). '
         'Non-trivial = a '
         'file at depth >= 2 under a rule with a non-empty extension filter, or a key conflict, or a rule '
         'pointing at a regular file. Distinct = sha1 of canonical JSON.')
